@@ -43,17 +43,17 @@ def ref_half_state(ref):
     return (ref.accu, ref.nxt, ref.count, ref.cycles, ref.branches, tuple(sorted((a, v) for a, v in ref.mem.items() if v)))
 
 
-def explore_program(words, data, accu, cap, p, tag):
+def explore_program(words, data, accu, cap, p, tag, size=None):
     """BFS over call sequences on one program until no new state appears (or the instruction cap is hit)."""
     # whole-step run: the boundary states every other schedule must reproduce
-    whole = toy.make_toy(words, data, accu)
+    whole = toy.make_toy(words, data, accu, size)
     boundary = [digest(view(whole))]
     n = 0
     while not whole.is_done() and n < cap + 2:
         whole.step()
         n += 1
         boundary.append(digest(view(whole)))
-    sim0 = toy.make_toy(words, data, accu)
+    sim0 = toy.make_toy(words, data, accu, size)
     ref0 = ToyRef(words, data, accu)
     seen = {digest(full_view(sim0))}
     frontier = [((), sim0, ref0)]
@@ -77,7 +77,7 @@ def explore_program(words, data, accu, cap, p, tag):
                 except StepSequenceError as e:
                     raised = e
                 except Exception as e:  # noqa
-                    p.violation(dict(oracle="two-phase", field="exception"), dict(kind="toy-steps", words=list(words), data={str(k): v for k, v in data.items()}, accu=accu, hist=list(h2)),
+                    p.violation(dict(oracle="two-phase", field="exception"), dict(kind="toy-steps", words=list(words), data={str(k): v for k, v in data.items()}, accu=accu, hist=list(h2), size=size),
                                 f"{tag} calls {[OPS[i] for i in h2]}: {type(e).__name__}: {e}", size=(len(h2), h2))
                     continue
                 bad = []
@@ -113,7 +113,7 @@ def explore_program(words, data, accu, cap, p, tag):
                             if r2.count < len(boundary) and digest(view(s2)) != boundary[r2.count]:
                                 bad.append(("boundary-differs", f"state / table markers / visualisation values after {r2.count} instructions differ from the whole-step run"))
                 for f, d in bad:
-                    p.violation(dict(oracle="two-phase", field=f), dict(kind="toy-steps", words=list(words), data={str(k): v for k, v in data.items()}, accu=accu, hist=list(h2)),
+                    p.violation(dict(oracle="two-phase", field=f), dict(kind="toy-steps", words=list(words), data={str(k): v for k, v in data.items()}, accu=accu, hist=list(h2), size=size),
                                 f"{tag} calls {[OPS[i] for i in h2]}: {d}", size=(len(h2), h2))
                 k = digest(full_view(s2))
                 if k not in seen:
@@ -136,7 +136,7 @@ def replay(case):
     data = {int(k): v for k, v in case["data"].items()}
     p = Partial()
     # re-explore this program up to the length of the failing call sequence
-    explore_program(words, data, accu, len(hist) + 2, p, "replay")
+    explore_program(words, data, accu, len(hist) + 2, p, "replay", case.get("size"))
     return [(lst[0][1], lst[0][3]) for _k, (n, lst) in p.viol.items()]
 
 
@@ -170,6 +170,20 @@ EXAMPLES = [
 ]
 
 
+SMALL = [(4, [0x9000, 0x9000, 0x9000], {}, 0), (8, [0x2007, 0x9000], {}, 0), (8, [0x2007, 0x9000], {}, 1),
+         (8, [0x1007, 0x0006, 0x2007], {7: 0}, 5), (16, [0x300F, 0x000E, 0x200F, 0x9000], {15: 1}, 0xFFFF), (2, [0x9000], {}, 0)]
+
+
+def small_shard(k):
+    """Machines created with a small memory: programs that end at (or branch to) the last word of the memory."""
+    size, words, data, accu = SMALL[k]
+    p = Partial()
+    explore_program(words, data, accu, 30, p, f"memory of {size} words, [{'; '.join(text(w) for w in words)}] accu={accu}", size)
+    p.nontrivial += 1
+    p.counters["small-memory"] += 1
+    return p
+
+
 def example_shard(shard):
     p = Partial()
     words, data = EXAMPLES[shard]
@@ -200,4 +214,7 @@ def run(ctx):
     t0 = time.time()
     part = pmap(example_shard, [0, 1, 2])
     ctx.space("help-page-examples", part, t0)
-    ctx.require("illegal-call", "call-after-done", "boundary", "closed")
+    t0 = time.time()
+    part = pmap(small_shard, list(range(len(SMALL))))
+    ctx.space("small-memories", part, t0, sizes=sorted({s_[0] for s_ in SMALL}))
+    ctx.require("illegal-call", "call-after-done", "boundary", "closed", "small-memory")
